@@ -231,7 +231,7 @@ theorem loadActuals_eff (ctx : Ctx) : ∀ (args : List AExpr) (p s : Nat) (gs : 
 theorem genCallActuals_eff (ctx : Ctx) : ∀ (args : List AExpr) (gs : GS) (code : Code) (gs' : GS),
     genCallActuals ctx args gs = .ok (code, gs') →
     gs'.offset = gs.offset + countCalls args ∧ gs.size ≤ gs'.size ∧ gs.labelCount ≤ gs'.labelCount ∧
-      (∀ e ∈ gs.constMap, e ∈ gs'.constMap) := by
+      (∀ e ∈ gs.items, e ∈ gs'.items) := by
   intro args
   induction args with
   | nil =>
